@@ -610,6 +610,25 @@ def sequence_set_to_list(
 
 ####################################################################
 #
+def quoted(value: str) -> str:
+    """Return `value` as the contents of an IMAP quoted string.
+
+    Inside a quoted string `"` and `\\` must be written `\\"` and `\\\\`, and
+    CR and LF can not appear at all (rfc3501, `quoted` / `QUOTED-CHAR`);
+    line breaks (a folded header value) become a single space.
+
+    Args:
+        value: The text that is going to be put between double quotes.
+
+    Returns:
+        The text with the quoted-specials escaped and line breaks removed.
+    """
+    value = re.sub(r"\s*[\r\n]+\s*", " ", value)
+    return value.replace("\\", "\\\\").replace('"', '\\"')
+
+
+####################################################################
+#
 def clip_uid_set(seq_set: MsgSet, uid_max: int) -> MsgSet:
     """Clip the ranges of a UID sequence set to the highest uid in use.
 
